@@ -36,6 +36,11 @@ def run_row(row):
     base, ref, target = t(row["base"]), t(row["ref"]), t(row["target"])
     ref2, target2 = t(row["ref2"]), t(row["target2"])
     bad = []
+    # texts with an escaped percent sign are compared in the fully quoted rendering: minimal quoting leaves a decoded '%'
+    # as it is, so it cannot render them (the round-trip property says as much)
+    FQ = {"full_quote": True} if "%" in base + ref + ref2 else {}
+    if FQ and not (base + ref + ref2).isascii():
+        return []          # (full quoting would also IDNA-encode the host: escapes are combined with ASCII hosts only)
 
     def nav(label, thunk, want):
         try:
@@ -47,9 +52,9 @@ def run_row(row):
             bad.append((label, got, want))
         return got
     b = URL(base)
-    before = b.to_text()
-    nav("navigate(str)", lambda: b.navigate(ref).to_text(), target)
-    nav("navigate(URL)", lambda: b.navigate(URL(ref)).to_text(), target)
+    before = b.to_text(**FQ)
+    nav("navigate(str)", lambda: b.navigate(ref).to_text(**FQ), target)
+    nav("navigate(URL)", lambda: b.navigate(URL(ref)).to_text(**FQ), target)
     # the same reference as an object put together piece by piece (query and fragment filled in after construction):
     # taken only when it renders to the very same reference text
     try:
@@ -63,10 +68,10 @@ def run_row(row):
     except Exception:
         r2 = r3 = None
     for label, r_ in (("navigate(URL-ref-filled-in)", r2), ("navigate(URL-ref-from_parts)", r3)):
-        if r_ is not None and r_.to_text() == ref and not (row["rq"] or row["rf"]):
-            nav(label, lambda r_=r_: b.navigate(r_).to_text(), target)
-    if b.to_text() != before or URL(base).to_text() != before:
-        bad.append(("base-modified", b.to_text(), before))
+        if r_ is not None and r_.to_text(**FQ) == ref and not (row["rq"] or row["rf"]):
+            nav(label, lambda r_=r_: b.navigate(r_).to_text(**FQ), target)
+    if b.to_text(**FQ) != before or URL(base).to_text(**FQ) != before:
+        bad.append(("base-modified", b.to_text(**FQ), before))
     # ... nor by what is done to the result afterwards (the result shares nothing with the base)
     try:
         r_ = b.navigate(ref)
@@ -74,8 +79,8 @@ def run_row(row):
         r_.query_params["q"] = "changed"
         r_.path_parts = tuple(r_.path_parts) + ("more",)
         r_.fragment, r_.username = "elsewhere", "someone"
-        if b.to_text() != before:
-            bad.append(("base-modified-through-result", b.to_text(), before))
+        if b.to_text(**FQ) != before:
+            bad.append(("base-modified-through-result", b.to_text(**FQ), before))
     except Exception as ex:
         bad.append(("base-modified-through-result", "raised:" + core.exc_name(ex), before))
     # a long-lived base object: it has already served a navigation as another URL, then every component was re-assigned
@@ -98,8 +103,8 @@ def run_row(row):
             lived.family = pb.family
         except Exception:
             continue
-        if lived.to_text() == before:
-            nav("navigate(reassigned-base/%s)" % how, lambda lived=lived: lived.navigate(ref).to_text(), target)
+        if lived.to_text(**FQ) == before:
+            nav("navigate(reassigned-base/%s)" % how, lambda lived=lived: lived.navigate(ref).to_text(**FQ), target)
     # the same absolute base URL as an object built another way (unrooted path_parts via from_parts, path assigned as text):
     # taken only when it renders to the very same base text
     if len(b.path_parts) > 1 and b.path_parts[0] == "":
@@ -113,17 +118,17 @@ def run_row(row):
         except Exception:
             alts = []
         for label, alt in alts:
-            if alt.to_text() == before:
-                nav(label, lambda alt=alt: alt.navigate(ref).to_text(), target)
+            if alt.to_text(**FQ) == before:
+                nav(label, lambda alt=alt: alt.navigate(ref).to_text(**FQ), target)
     if not (row["rq"] or row["rf"]):
-        nav("chained", lambda: URL(base).navigate(ref).navigate(ref2).to_text(), target2)
+        nav("chained", lambda: URL(base).navigate(ref).navigate(ref2).to_text(**FQ), target2)
 
         def norm_twice():
             u = URL(base).navigate(ref)
             u.normalize()
-            t1 = u.to_text()
+            t1 = u.to_text(**FQ)
             u.normalize()
-            return t1 if u.to_text() == t1 else "normalize-not-idempotent: %s -> %s" % (t1, u.to_text())
+            return t1 if u.to_text(**FQ) == t1 else "normalize-not-idempotent: %s -> %s" % (t1, u.to_text(**FQ))
         nav("normalize-idempotent", norm_twice, target)
     return bad
 
